@@ -396,9 +396,7 @@ class Splicer:
         if has_self:
             params = params[1:]
         params = [re.sub(r'^mut\s+', '', p) for p in params]
-        if f.ret_start < 0:
-            raise AnchorLost('%s: @predicates needs a return type' % f.path)
-        ret = self.body[f.ret_start:f.ret_end].strip()
+        ret = self.body[f.ret_start:f.ret_end].strip() if f.ret_start >= 0 else None
         out = []
         for c in fs.clauses:
             if c.kind != 'ensures':
@@ -414,7 +412,7 @@ class Splicer:
             else:
                 head = []
             text = re.sub(r'\bold\((\w+)\)', r'\1', text)
-            plist = ', '.join(head + params + ['%s: %s' % (fs.ret or 'res', ret)])
+            plist = ', '.join(head + params + (['%s: %s' % (fs.ret or 'res', ret)] if ret else []))
             out.append('    pub open spec fn %s(%s) -> bool {\n        %s\n    }\n' % (name, plist, text.replace('\n', '\n        ')))
         self.add(self.line_start(f.item_pos), ''.join(out), {'kind': 'ghost', 'what': 'predicates of ' + f.path})
 
